@@ -147,6 +147,7 @@ def _work(rng):
     chk = _CHECK
     agg = {'viol': {}, 'keys': set(), 'counters': collections.Counter(), 'cover': {}, 'timeouts': 0, 'n': 0}
     signal.signal(signal.SIGALRM, _alarm)
+    signal.signal(signal.SIGPROF, _alarm)
 
     def run_forked(case):
         """run one case in a child forked from this (clean) worker, so that nothing the case does to process-global state can
@@ -191,16 +192,23 @@ def _work(rng):
     def one(case, order):
         res = None
         try:
-            signal.setitimer(signal.ITIMER_REAL, getattr(chk, 'case_timeout', CASE_TIMEOUT))
+            # the guard measures the CPU time of this worker (a non-terminating case burns CPU; an overloaded machine must not
+            # turn a 5 ms case into a "timeout"); wall-clock time is a backstop only (10x; the limit itself for forked cases,
+            # whose CPU time is spent in the child)
+            limit = getattr(chk, 'case_timeout', CASE_TIMEOUT)
+            if not forked:
+                signal.setitimer(signal.ITIMER_PROF, limit)
+            signal.setitimer(signal.ITIMER_REAL, limit if forked else 10 * limit)
             try:
                 res = run_forked(case) if forked else chk.run(case)
             finally:
                 signal.setitimer(signal.ITIMER_REAL, 0)
+                signal.setitimer(signal.ITIMER_PROF, 0)
         except CaseTimeout:
             agg['timeouts'] += 1
             res = Result()
             res.violation(chk.timeout_signature(case) if hasattr(chk, 'timeout_signature') else 'timeout',
-                          f'case did not finish within {getattr(chk, "case_timeout", CASE_TIMEOUT)}s')
+                          f'case did not finish within {getattr(chk, "case_timeout", CASE_TIMEOUT)}s of CPU time')
         except Exception as e:  # harness-level failure: never silent
             res = Result()
             res.violation('harness:' + exc_sig(e), ''.join(traceback.format_exception(e))[-1500:])
